@@ -80,6 +80,12 @@ def templates(tr):
         ("twin-stays-own-expires", [S(V, 0), S(V, 3), S("accept"), "A", S(X, 0), "R"], None),
         ("twin-expires-own-stays", [S(V, 0), S(V, 3), S("accept"), "A", S(X, 3), "R"], 0),
         ("expired-after-match", [S(V, 0), S("accept"), "A", "R", S(X, 0)], 0),
+        # several connections, one after the other, against one registry (the outcome named is the LAST connection's)
+        ("second-connection-after-expiry", [S(V, 0), S("accept"), "A", "R", S("close"), S(X, 0), S("accept"), "A", "R"], None),
+        ("second-connection-after-lifetime", [S(V, 0), S(V, 2), S("accept"), "R", S("close"), S("advance"), S("accept"), "R"], None),
+        ("second-connection-after-reregistration", [S(V, 0), S("accept"), "R", S("close"), S(X, 0), S(V, 1), S("accept"), "A", "R"], 1),
+        ("second-connection-after-validation", [S(T, 0), S("accept"), "R", S("close"), S(V, 0), S("accept"), "A", "R"], 0),
+        ("second-connection-same-flight-still-live", [S(V, 0), S("accept"), "R", S("close"), S("sweep"), S("accept"), "A", "R"], 0),
     ]
 
 
@@ -154,9 +160,12 @@ def gen_cases(ctx, table):
             add("matched-before-expiry", tr, regs, {"kind": "flight", "reg": 0, "key": 0, "extra_len": 30, "extra_seed": 3},
                 [S("validate", 0), S("accept"), S("send", n=te), S("expire", 0), S("send", n=0), S("close")], 0)
             # every cut position inside the tag, expiry in between (thorough) / a sample (quick)
+            pid0 = regs[0]["prefix_id"]
             cuts = list(range(1, te)) if not quick else sorted(rng.sample(range(1, te), 4))
             for cpos in cuts:
                 regs = mk_regs(rng, tr, table_ids)
+                for k in (0, 1, 3):
+                    regs[k]["prefix_id"] = pid0        # same row of the prefix table: the tag ends where `te` says
                 add("expired-while-classifying", tr, regs, {"kind": "flight", "reg": 0, "key": 0, "extra_len": 5, "extra_seed": cpos},
                     expand(rng, [S("validate", 0), S("accept"), "A", S("expire", 0), "R"], tr, regs[0]["prefix_id"], table, cut=cpos), None)
         # near misses at connection level: a flight for another prefix / to a foreign station key / random bytes,
@@ -245,17 +254,21 @@ def oracle(ctx, gc, res):
     regs, stream = case["regs"], case["stream"]
     book = Book(regs, res)
     live_at_accept = {}
-    opened = []
+    opened = []          # per connection: objects that got a tunnel
     for step, sres in zip(case["steps"], res["steps"]):
-        if step["op"] == "accept":
+        if step["op"] == "accept" and not sres.get("note"):
             live_at_accept = {k: book.live(k) for k in range(len(regs))}
-        if step["op"] == "send" and sres["tunnel"] >= 0:
+            opened.append([])
+        if step["op"] in ("send", "close") and sres["tunnel"] >= 0:
             j = sres["tunnel"]
             tr = regs[j]["transport"]
-            opened.append(j)
+            if not opened:
+                opened.append([])
+            opened[-1].append(j)
 
             def bad(key, what):
-                ctx.fail(key, what, {"conn_case": gc, "observed": {"tunnel_to_object": j, "step": sres, "phantom": res["phantom"]}})
+                ctx.fail(key, what, {"conn_case": gc, "observed": {"tunnel_to_object": j, "step": sres, "phantom": res["phantom"],
+                                                                   "connection": len(opened)}})
             if stream["kind"] != "flight":
                 bad("conn:accept-unknown-secret/" + tr, "a stream that proves no secret opened a tunnel to object %d" % j)
             elif stream.get("key", 0) < 0:
@@ -273,13 +286,14 @@ def oracle(ctx, gc, res):
                         "classified; the first flight completed afterwards was nevertheless matched to it and a tunnel to its covert address was opened "
                         "(the registry offered %s on the phantom at that moment)" % sres["view"])
                 elif e is None:
-                    bad("conn:accept-not-registered/" + tr, "tunnel to object %d, which is not tracked on the phantom at the moment of the match" % j)
+                    bad("conn:accept-not-registered/" + tr, "tunnel to object %d, which is not tracked on the phantom at the moment of the match "
+                        "(expired before the connection arrived, or never registered)" % j)
                 elif e[0] != j:
                     bad("conn:accept-stale-object/" + tr, "tunnel to object %d, but the registration stored under its key at the moment of the match is "
                         "object %d (re-registration after expiry)" % (j, e[0]))
                 else:
                     bad("conn:accept-not-validated/" + tr, "tunnel to object %d, which is tracked but not validated at the moment of the match" % j)
-            elif j not in sres["view"]:
+            elif step["op"] == "send" and j not in sres["view"]:
                 bad("conn:accept-not-in-live-view/" + tr, "tunnel to object %d although GetRegistrations(phantom) did not offer it right before the "
                     "bytes that completed the flight were sent (it offered %s)" % (j, sres["view"]))
             elif tr == "prefix" and stream.get("prefix_id") is not None and stream["prefix_id"] != regs[j]["prefix_id"]:
@@ -287,9 +301,9 @@ def oracle(ctx, gc, res):
                     % (stream["prefix_id"], regs[j]["prefix_id"]))
         book.apply(step, sres)
     total = sum(res["tunnels"])
-    if total > 1 or len(opened) > 1 or (total == 1 and not opened):
-        ctx.fail("conn:tunnel-count", "one connection opened %d covert connections (per object: %s; attributed to steps: %s)"
-                 % (total, res["tunnels"], opened), {"conn_case": gc})
+    if total != sum(len(o) for o in opened) or any(len(o) > 1 for o in opened):
+        ctx.fail("conn:tunnel-count", "%d connection(s) opened %d covert connections (per object: %s; attributed per connection: %s)"
+                 % (len(opened), total, res["tunnels"], opened), {"conn_case": gc})
     return opened
 
 
@@ -313,8 +327,9 @@ def emit(ci, gc, res, nkeys):
         prm = "(PPrefix (%d)%%Z)" % r["prefix_id"] if r["transport"] == "prefix" else "PGeneric"
         return "(R %s %s %s)" % (gN(k + 1), gN(TT[r["transport"]]), prm)
 
-    evs = []
+    evs = []             # (connection index or None for registry operations, term)
     off = 0
+    conn = -1
     hs_true = set()
     for step, sres in zip(case["steps"], res["steps"]):
         op = step["op"]
@@ -324,19 +339,21 @@ def emit(ci, gc, res, nkeys):
                 continue
             ph, ident = gN(1 if regs[k]["other"] else 0), hexs(bytes.fromhex(res["ids"][k]))
             if op == "track":
-                evs.append("XReg (Track %s %s %s)" % (ph, ident, reg_term(k)))
+                evs.append((None, "XReg (Track %s %s %s)" % (ph, ident, reg_term(k))))
             elif op == "validate":
-                evs.append("XReg (Validate %s %s %s)" % (ph, ident, reg_term(k)))
+                evs.append((None, "XReg (Validate %s %s %s)" % (ph, ident, reg_term(k))))
             else:
-                evs.append("XReg (Expire %s %s)" % (ph, ident))
+                evs.append((None, "XReg (Expire %s %s)" % (ph, ident)))
         elif op == "sweep":
-            evs.append("XReg Sweep")
+            evs.append((None, "XReg Sweep"))
         elif op == "advance":
-            evs.append("XReg ExpireAll")
+            evs.append((None, "XReg ExpireAll"))
         elif op == "accept":
             if sres.get("note"):
                 continue
-            evs.append("XAccept")
+            conn += 1
+            off = 0
+            evs.append((conn, "XAccept"))
         elif op == "send":
             reads = sres["reads"] or []
             calls = sres["calls"] or []
@@ -363,10 +380,14 @@ def emit(ci, gc, res, nkeys):
                     cts.append("(%s, (%s, %s, %s))" % (gN(TRCODE[cl["t"]]), gN(CLS[cl["res"]]), gN(name), gN(cons)))
                 tun = sres["tunnel"] + 1 if (sres["tunnel"] >= 0 and gi == len(groups) - 1) else 0
                 chunk = "(take %s (drop %s %s))" % (gN(n), gN(cumn - n), sname) if n else "(@nil N)"
-                evs.append("XRead %s %s %s" % (chunk, "[" + "; ".join(cts) + "]" if cts else "(@nil ocall)", gN(tun)))
+                evs.append((conn, "XRead %s %s %s" % (chunk, "[" + "; ".join(cts) + "]" if cts else "(@nil ocall)", gN(tun))))
+            if not groups and sres["tunnel"] >= 0:
+                evs.append((conn, "XRead (@nil N) (@nil ocall) %s" % gN(sres["tunnel"] + 1)))
             off = cum
         elif op == "close":
-            evs.append("XErr")
+            if sres["tunnel"] >= 0:     # a tunnel nothing announced
+                evs.append((conn, "XRead (@nil N) (@nil ocall) %s" % gN(sres["tunnel"] + 1)))
+            evs.append((conn, "XErr"))
     rt = "[" + "; ".join("(%s, %s, %s)" % (gN(e["key"]), gN(e["off"]), ("Some %s" % hexs(bytes.fromhex(e["id"]))) if e["id"] in ids else "G")
                          for e in (res["reveals"] or [])) + "]" if res["reveals"] else "(@nil (N * N * option bytes))"
     marks = {}          # per identifier: objects that share a secret share the identifier, the mark and the handshake keys
@@ -377,8 +398,13 @@ def emit(ci, gc, res, nkeys):
             e[1] = e[1] or m["obj"] in hs_true
     mt = "[" + "; ".join("(%s, %s, %s)" % (hexs(bytes.fromhex(i)), hexs(bytes.fromhex(mk)), "true" if h else "false")
                          for i, (mk, h) in sorted(marks.items())) + "]" if marks else "(@nil (bytes * bytes * bool))"
-    term = "(ctbl, %s, 0, %s, %s, %s, [%s])" % (gN(nkeys), rt, mt, sname, ";\n   ".join(evs))
-    return defs, term
+    # the handler never changes what the transports look up: every connection of the case is replayed on its own
+    # against the registry operations of the whole case
+    terms = []
+    for cn in range(max(conn, 0) + 1):
+        mine = [t for (c_, t) in evs if c_ is None or c_ == cn]
+        terms.append("(ctbl, %s, 0, %s, %s, %s, [%s])" % (gN(nkeys), rt, mt, sname, ";\n   ".join(mine)))
+    return defs, terms
 
 
 # ------------------------------------------------------------------ lane
@@ -439,7 +465,8 @@ def run_lane(ctx, table_hint=None):
             if sres["stalled"] and not any(c["res"].startswith("err") for c in sres["calls"]):
                 ctx.broken("driver", "the handler neither went back to reading nor returned within 5 s after step %s (no transport error was "
                            "recorded)" % step, {"conn_case": gc})
-        opened = oracle(ctx, gc, r)
+        opened_all = oracle(ctx, gc, r)
+        opened = opened_all[-1] if opened_all else []
         outcome = "tunnel" if opened else "no-tunnel"
         cls = gc["class"]
         kind = "conn/%s/%s" % (cls, outcome) if cls == "random-interleaving" else "conn/%s/%s/%s" % (cls, gc["transport"], outcome)
@@ -449,11 +476,13 @@ def run_lane(ctx, table_hint=None):
             want = gc["expect"]
             got = opened[0] if opened else None
             if want != got:
-                hist["conn/unexpected-outcome"] = hist.get("conn/unexpected-outcome", 0) + 1
-        d, t = emit(ci, gc, r, nkeys)
+                kk = "conn/unexpected-outcome/%s/%s" % (cls, gc["transport"])
+                hist[kk] = hist.get(kk, 0) + 1
+        d, ts = emit(ci, gc, r, nkeys)
         defs += d
-        terms.append(t)
-        meta.append((gc, r))
+        for t in ts:
+            terms.append(t)
+            meta.append((gc, r))
         if ci < 2:
             ctx.sample({"lane": "connection", "class": gc["class"], "transport": gc["transport"],
                         "steps": [(s["op"], s["reg"], s["n"]) for s in gc["case"]["steps"]],
